@@ -239,7 +239,7 @@ void ezc3d::ParametersNS::Parameters::write(std::fstream &f) const
     f.write(reinterpret_cast<const char*>(&processorType), ezc3d::BYTE);
 
     // Write each groups
-    std::streampos dataStartPosition; // Special parameter in POINT group
+    std::streampos dataStartPosition(-1); // Special parameter in POINT group
     for (size_t i=0; i < nbGroups(); ++i)
         group(i).write(f, -static_cast<int>(i+1), dataStartPosition);
 
@@ -258,14 +258,16 @@ void ezc3d::ParametersNS::Parameters::write(std::fstream &f) const
     f.seekg(actualPos);
 
     // Go back to data start blank space and write the actual position
-    actualPos = f.tellg();
-    f.seekg(dataStartPosition);
-    nBlocksToNext = int(actualPos)/512;
-    if (int(actualPos) % 512 > 0)
-        ++nBlocksToNext;
-    ++nBlocksToNext; // DATA_START is the 1-based number of the first data block
-    f.write(reinterpret_cast<const char*>(&nBlocksToNext), ezc3d::BYTE);
-    f.seekg(actualPos);
+    if (dataStartPosition != std::streampos(-1)){
+        actualPos = f.tellg();
+        f.seekg(dataStartPosition);
+        nBlocksToNext = int(actualPos)/512;
+        if (int(actualPos) % 512 > 0)
+            ++nBlocksToNext;
+        ++nBlocksToNext; // DATA_START is the 1-based number of the first data block
+        f.write(reinterpret_cast<const char*>(&nBlocksToNext), ezc3d::BYTE);
+        f.seekg(actualPos);
+    }
 }
 
 size_t ezc3d::ParametersNS::Parameters::parametersStart() const
